@@ -40,8 +40,27 @@ pub struct Entry {
 
 impl Entry {
     /// Returns the range of tile ids this entry is valid for.
+    ///
+    /// The range is half-open and can therefore not include the tile id [`u64::MAX`].
     pub const fn tile_id_range(&self) -> Range<u64> {
         self.tile_id..self.tile_id.saturating_add(self.run_length as u64)
+    }
+
+    /// Returns the last tile id this entry is valid for (`None` for a leaf directory entry).
+    pub(crate) const fn last_tile_id(&self) -> Option<u64> {
+        if self.run_length == 0 {
+            None
+        } else {
+            Some(self.tile_id.saturating_add(self.run_length as u64 - 1))
+        }
+    }
+
+    /// Returns `true` if this entry is valid for `tile_id` (including the tile id [`u64::MAX`]).
+    pub(crate) const fn contains_tile_id(&self, tile_id: u64) -> bool {
+        match self.last_tile_id() {
+            Some(last) => self.tile_id <= tile_id && tile_id <= last,
+            None => false,
+        }
     }
 
     /// Returns `true` if this entry is for a leaf directory and
@@ -392,7 +411,7 @@ impl Directory {
     ///
     pub fn find_entry_for_tile_id(&self, tile_id: u64) -> Option<&Entry> {
         self.into_iter()
-            .find(|e| !e.is_leaf_dir_entry() && e.tile_id_range().contains(&tile_id))
+            .find(|e| e.contains_tile_id(tile_id))
     }
 }
 
